@@ -417,35 +417,8 @@ func c07R6(c *Ctx, rule string) {
 			}
 		}
 	}
-	// voter-only iteration in election / lease / transfer-target code
-	type vo struct {
-		fn     string
-		effect func(string) bool
-		what   string
-	}
+	sVoterOnlyBallots(c, rule)
 	sv := "val(range recv.configurations.latest.Servers)"
-	for _, x := range []vo{
-		{"(*Raft).preElectSelf", func(n string) bool { return strings.HasPrefix(n, "(*Raft).preElectSelf$askPeer") }, "ask for a pre-vote"},
-		{"(*Raft).electSelf", func(n string) bool { return strings.HasPrefix(n, "(*Raft).electSelf$askPeer") }, "ask for a vote"},
-	} {
-		fn := c.Fn(rule, x.fn)
-		if fn == nil {
-			continue
-		}
-		r := c.Run(&engine.Automaton{Fn: fn, Tracks: []engine.Track{engine.PredCond("voter", func(cd engine.Cond) (bool, int) { return voterCond(cd, sv+".Suffrage") })}})
-		ss := c.P.CallsIn(fn, x.effect)
-		if len(ss) == 0 {
-			c.Bad(rule, x.fn+":"+x.what, c.P.Pos(fn.Pos()), x.fn+" does "+x.what, "no site")
-		}
-		for _, s := range ss {
-			c.RequireAt(r, rule, x.fn+":"+x.what+"-voters-only", s.Instr, "Suffrage == Voter", func(v engine.View) bool { return v.T("voter") })
-		}
-		engine.EachInstr(fn, func(in ssa.Instruction) {
-			if _, ok := in.(*ssa.Send); ok {
-				c.RequireAt(r, rule, x.fn+":self-ballot-voters-only", in, "the own ballot is cast only as a voter", func(v engine.View) bool { return v.T("voter") })
-			}
-		})
-	}
 	if fn := c.Fn(rule, "(*Raft).pickServer"); fn != nil {
 		// pick is assigned only for voters other than self
 		r := c.Run(&engine.Automaton{Fn: fn, Tracks: []engine.Track{
@@ -522,4 +495,38 @@ func c07R7(c *Ctx, rule string) {
 		"(*Raft).runFollower": "main loop", "(*Raft).runCandidate": "main loop", "(*Raft).leaderLoop": "main loop",
 	})
 	c.WhoMay(rule, "call (*Raft).liveBootstrap", c.P.CallsEverywhere(engine.Is("(*Raft).liveBootstrap")), map[string]string{"(*Raft).runFollower": "main loop"})
+}
+
+// sVoterOnlyBallots: vote and pre-vote requests, and the candidate's own
+// ballot, involve voters of the latest configuration only.
+func sVoterOnlyBallots(c *Ctx, rule string) {
+	// voter-only iteration in election / lease / transfer-target code
+	type vo struct {
+		fn     string
+		effect func(string) bool
+		what   string
+	}
+	sv := "val(range recv.configurations.latest.Servers)"
+	for _, x := range []vo{
+		{"(*Raft).preElectSelf", func(n string) bool { return strings.HasPrefix(n, "(*Raft).preElectSelf$askPeer") }, "ask for a pre-vote"},
+		{"(*Raft).electSelf", func(n string) bool { return strings.HasPrefix(n, "(*Raft).electSelf$askPeer") }, "ask for a vote"},
+	} {
+		fn := c.Fn(rule, x.fn)
+		if fn == nil {
+			continue
+		}
+		r := c.Run(&engine.Automaton{Fn: fn, Tracks: []engine.Track{engine.PredCond("voter", func(cd engine.Cond) (bool, int) { return voterCond(cd, sv+".Suffrage") })}})
+		ss := c.P.CallsIn(fn, x.effect)
+		if len(ss) == 0 {
+			c.Bad(rule, x.fn+":"+x.what, c.P.Pos(fn.Pos()), x.fn+" does "+x.what, "no site")
+		}
+		for _, s := range ss {
+			c.RequireAt(r, rule, x.fn+":"+x.what+"-voters-only", s.Instr, "Suffrage == Voter", func(v engine.View) bool { return v.T("voter") })
+		}
+		engine.EachInstr(fn, func(in ssa.Instruction) {
+			if _, ok := in.(*ssa.Send); ok {
+				c.RequireAt(r, rule, x.fn+":self-ballot-voters-only", in, "the own ballot is cast only as a voter", func(v engine.View) bool { return v.T("voter") })
+			}
+		})
+	}
 }
